@@ -92,7 +92,7 @@ var keyKinds = []string{KBool, KInt, KInt32, KInt64, KUint, KUint32, KUint64, KS
 func GenType(t *rapid.T, o *Opts) TypeDesc {
 	g := &tgen{t: t, o: o}
 	var d TypeDesc
-	switch pick(t, "top", 66, 8, 7, 9, 10) {
+	switch pick(t, "top", 62, 8, 7, 9, 10, 4) {
 	case 0:
 		d = g.structType(0)
 	case 1:
@@ -105,10 +105,36 @@ func GenType(t *rapid.T, o *Opts) TypeDesc {
 		}
 	case 3:
 		d = named(oneOf(t, "corpus", StructNames))
-	default:
+	case 4:
 		d = g.inlinedChain()
+	default:
+		if o.NoImpl {
+			d = g.structType(0)
+		} else {
+			d = g.implLast()
+		}
 	}
 	g.restrictImpl(&d)
+	return d
+}
+
+// implLast: a struct of 0..4 non-repeated fields followed by a Message /
+// custom implementer field (the one nested position that stays in the domain
+// while the class implementer-field-not-last is listed).
+func (g *tgen) implLast() TypeDesc {
+	n := rapid.IntRange(0, 4).Draw(g.t, "n")
+	d := TypeDesc{K: KStruct}
+	for i := 0; i < n; i++ {
+		ft := g.fieldType(1)
+		if ft.K == KSlice || ft.K == KMap {
+			ft = g.leafType(true)
+		}
+		d.Fields = append(d.Fields, FieldDesc{Num: i + 1, T: ft})
+	}
+	d.Fields = append(d.Fields, FieldDesc{Num: n + 1, T: g.impl()})
+	if rapid.Bool().Draw(g.t, "tagged") {
+		g.tagFields(&d)
+	}
 	return d
 }
 
